@@ -39,12 +39,24 @@ inductive NarrowRule where
   | withNilMarker
   deriving DecidableEq, Repr
 
+/-- which patterns' failure narrows the block parameter for the LATER branches (complement). -/
+inductive ComplRule where
+  /-- no complement narrowing -/
+  | off
+  /-- current code: only patterns whose failure is a fact about the TYPE of the value
+  (`prevents_complement_narrowing`: no literal, pin or equality requirement) -/
+  | faithful
+  /-- mutation: a literal pattern also counts as covering its whole type -/
+  | alsoValuePatterns
+  deriving DecidableEq, Repr
+
 /-- the rules under test (defaults = the code as it is). -/
 structure InferCfg where
   seq : SeqRule := .accumulated
   idx : IndexRule := .always
   unify : Rules := Rules.current
   narrow : NarrowRule := .matched
+  compl : ComplRule := .faithful
   /-- fuel of the table functions (`foV`, `getFieldByName`, `unify`, `substitute`): `fuel + 2` -/
   fuel : Nat := 30
 
@@ -250,6 +262,10 @@ structure PatRes where
   matched : Nat
   /-- the pattern succeeds on every value of the scrutinee type (no run-time requirement) -/
   irref : Bool
+  /-- the part of the scrutinee type the pattern is about (independent of the narrowing rule) -/
+  covered : Nat
+  /-- the pattern succeeds on EVERY value of `covered` (its failure is a fact about the type) -/
+  faithful : Bool
 
 /-- the tuple variant `k` has the name, arity and labels of the pattern. -/
 def tupleShape (c : Ctx) (n : Option String) (labels : List (Option String)) (k : Nat) : Option TupleInfo :=
@@ -281,7 +297,7 @@ def leafRes (c : Ctx) (t : Nat) (ty : Types.Ty) (isTest : Bool) : Option PatRes 
     if (flat1 c.T t).contains i then
       let irref := isTest && decide (t = i)
       match narrowTo c t i irref with
-      | some m => some ⟨[], m, irref⟩
+      | some m => some ⟨[], m, irref, i, isTest⟩
       | none => none
     else none
   | none => none
@@ -300,8 +316,8 @@ def tupScrutOk (c : Ctx) (t : Nat) : Bool :=
 
 mutual
   def inferPat (c : Ctx) (seen : List String) (t : Nat) : Pat → Option PatRes
-    | .bind x => if seen.contains x then none else some ⟨[(x, t)], t, true⟩
-    | .wild => some ⟨[], t, true⟩
+    | .bind x => if seen.contains x then none else some ⟨[(x, t)], t, true, t, true⟩
+    | .wild => some ⟨[], t, true, t, true⟩
     | .lit (.int _) => leafRes c t .integer false
     | .lit (.bin _) => leafRes c t .binary false
     | .type .int => leafRes c t .integer true
@@ -319,7 +335,7 @@ mutual
             if ms = info.fields.map (·.2) then
               let irref := irr && decide (t = k)
               match narrowTo c t k irref with
-              | some m => some ⟨binds, m, irref⟩
+              | some m => some ⟨binds, m, irref, k, irr⟩
               | none => none
             else none
           | none => none
@@ -410,6 +426,46 @@ def seqType (c : Ctx) (ts : List Nat) : Option Nat :=
       | some n => unionPair c.T (c.cfg.fuel + 2) tl n
       | none => none
     else some tl
+
+/-- the pattern of a branch that is a pure dispatch on the block parameter: `| =P => …`. -/
+def dispatchPat (cond : List Chain) : Option Pat :=
+  match cond with
+  | [.mk none [.mtch p]] => some p
+  | _ => none
+
+/-- `compute_complement(a, k)` (C09's model of narrowing.rs, the code as it is) for a scrutinee `a`
+that is a flat union of simple types: `some none` = never (nothing is left), `some (some r)` = the
+type `r` of what is left. The answer is accepted only with a CERTIFICATE checked here: every
+variant of `a` other than `k` is a variant of `r` (which is what the soundness proof uses — C09's
+`complement_keeps` needs well-labelled values, which the typing relation does not carry). -/
+def complementIn (c : Ctx) (a k : Nat) : Option (Option Nat) :=
+  if tupScrutOk c a then
+    match QM.Types.complement QM.Types.Variant.current (c.cfg.fuel + 2) (c.cfg.fuel + 2) c.T a k with
+    | some (T', r) =>
+      if T' = c.T then
+        let others := (flat1 c.T a).filter (fun j => j != k)
+        if others.isEmpty then (if c.T.types[r]? = some (.union []) then some none else none)
+        else if others.all (fun j => (flat1 c.T r).contains j) then some (some r) else none
+      else none
+    | none => none
+  else none
+
+/-- the parameter type the LATER branches see after this branch failed, and whether nothing is
+left (the block is exhaustive). -/
+def nextParam (c : Ctx) (ft : Nat) (cond : List Chain) : Option (Nat × Bool) :=
+  match dispatchPat cond with
+  | some p =>
+    match inferPat c [] ft p with
+    | some r =>
+      if c.cfg.compl = .off then some (ft, false)
+      else if r.faithful || (c.cfg.compl = .alsoValuePatterns) then
+        match complementIn c ft r.covered with
+        | some none => some (ft, true)
+        | some (some r') => some (r', false)
+        | none => none
+      else some (ft, false)
+    | none => some (ft, false)
+  | none => some (ft, false)
 
 /-- is the block exhaustive? The last branch decides: its condition cannot be nil. -/
 def exhaustiveFlag (c : Ctx) (isLast : Bool) (tc : Nat) (exRest : Bool) : Bool :=
@@ -569,9 +625,12 @@ mutual
         | some tc =>
           match inferCons c Γ1 (narrowParam c ft cond) tc rest.isEmpty cons with
           | some (tb, cons') =>
-            match inferBranches c Γ ft rest with
-            | some (tys, ex, rest') =>
-              some (tb :: tys, exhaustiveFlag c rest.isEmpty tc ex, .mk cond' cons' :: rest')
+            match nextParam c ft cond with
+            | some (ft', nev) =>
+              match inferBranches c Γ ft' rest with
+              | some (tys, ex, rest') =>
+                some (tb :: tys, nev || exhaustiveFlag c rest.isEmpty tc ex, .mk cond' cons' :: rest')
+              | none => none
             | none => none
           | none => none
         | none => none
